@@ -543,9 +543,68 @@ def run_program(ctx, rng, src, origin, foreign_patterns):
     del foreign_patterns[:-40]
 
 
+NESTED = [
+    ("if a > 0:\n    if b > 0:\n        print(b)\n    total = 1\nx = 0\nif x:\n    x = x + 1\n", "if ___:\n    __body__", ast.If),
+    ("if a:\n    if b:\n        if c:\n            print(c)\n", "if ___:\n    __body__", ast.If),
+    ("for i in rows:\n    for j in i:\n        print(j)\n    for k in i:\n        pass\n", "for ___ in ___:\n    __body__", ast.For),
+    ("while n:\n    n = n - 1\n    while m:\n        m = m - 1\n", "while ___:\n    __body__", ast.While),
+    ("def outer():\n    def inner():\n        return 1\n    return inner\n", "def ___():\n    __body__", ast.FunctionDef),
+    ("if a:\n    x = 1\nelse:\n    y = 2\nif b:\n    if c:\n        z = 3\n", "if ___:\n    __body__", ast.If),
+    ("data = [[1, 2], [3]]\ntotal = sum(sum(row) for row in data)\nprint(len(str(len(data))))\n", "len(__x__)", ast.Call),
+]
+
+
+def check_same_pattern_continued(ctx):
+    """The idiom for nested constructs: the pattern that matched is asked again inside what its placeholder was bound to
+    (match['__body__'].find_matches(the same pattern)). Every answer is an embedding into the part that was searched."""
+    from pedal.cait.cait_api import find_matches
+    for turn in range(2):       # (the second time round every pattern text has been seen before in this process)
+        for src, pattern, kind in NESTED:
+            src = cc.present(ctx, src, 'plain' if turn == 0 else None)
+            root = student_root()
+            ph = '__body__' if '__body__' in pattern else '__x__'
+            try:
+                outer = find_matches(pattern, **cc.kw())
+            except Exception as e:
+                ctx.violation('C10|find_matches-raised|%s|%s' % (type(e).__name__, site_of(e)), {'src': src, 'pattern': pattern}, traceback.format_exc()[-400:])
+                continue
+            for m in outer[:8]:
+                case = {'src': src, 'pattern': pattern, 'perturbation': 'same-pattern-continued', 'presented': cc.PRESENTED['how']}
+                try:
+                    bound = m[ph]
+                    inner = bound.find_matches(pattern)
+                except Exception as e:
+                    ctx.violation('C10|sub-query-raised|%s|%s|same-pattern-continued' % (type(e).__name__, site_of(e)), case, traceback.format_exc()[-400:])
+                    continue
+                ctx.count('same_pattern_continued_queries')
+                searched = {id(n) for n in ast.walk(bound.astNode)} if isinstance(getattr(bound, 'astNode', None), ast.AST) else None
+                want = [n for n in ast.walk(bound.astNode) if isinstance(n, kind)] if searched is not None else []
+                if kind is ast.Call:
+                    want = [n for n in want if isinstance(n.func, ast.Name) and n.func.id == 'len']
+                roots = []
+                for sm in inner:
+                    problems = []
+                    try:
+                        cc.check_witness(sm, pattern, root, problems)
+                    except Exception as e:
+                        ctx.note('witness checker error (same pattern continued): %r' % (e,))
+                        continue
+                    ctx.count('sub_matches_witness_checked')
+                    for pk, detail in problems[:3]:
+                        ctx.violation('C10|not-an-embedding|%s|same-pattern-continued' % pk, case, detail)
+                    r = getattr(sm.match_root, 'astNode', None)
+                    roots.append(r)
+                    if searched is not None and id(r) not in searched:
+                        ctx.violation('C10|not-an-embedding|match-rooted-outside-the-part-that-was-searched|same-pattern-continued', case,
+                                      'the sub-match is rooted at line %s, outside what %s was bound to' % (getattr(r, 'lineno', '?'), ph))
+                ctx.case('nested:%s:%s:%d' % (pattern, src, getattr(getattr(m.match_root, 'astNode', None), 'lineno', 0)))
+
+
 def run(ctx):
     import os, sys
     sys.setrecursionlimit(20000)
+    if ctx.shard % 4 == 1:
+        check_same_pattern_continued(ctx)
     from gen.programs import gen_program
     from gen import corpus
     from props.c11 import gen_small, gen_arith
